@@ -183,7 +183,13 @@ class Runner:
         self.env = dict(os.environ)
         self.env.update(ctx.sg_env())
 
-    def run(self, k, p):
+    def run(self, k, p, timeout=120):
+        rc, logs, errs, err = self.run1(k, p, timeout)
+        if rc == -999:          # a loaded machine is not a livelock: once more with a long timeout
+            rc, logs, errs, err = self.run1(k, p, 900)
+        return rc, logs, errs, err
+
+    def run1(self, k, p, timeout):
         sf = os.path.join(self.dir, "script-%s.txt" % k)
         with open(sf, "w") as fh:
             # interleave the ranks' scripts line by line (each rank only reads its own lines)
@@ -197,7 +203,7 @@ class Runner:
         try:
             for attempt in range(30):
                 try:      # the shared build may be relinking smpimain/libsimgrid right now (another check's ninja): retry
-                    q = subprocess.run(cmd, capture_output=True, text=True, timeout=120, env=self.env, cwd=self.dir)
+                    q = subprocess.run(cmd, capture_output=True, text=True, timeout=timeout, env=self.env, cwd=self.dir)
                     if q.returncode == 127 or "error while loading shared libraries" in q.stderr:
                         raise OSError(q.stderr[-200:])
                     break
